@@ -138,6 +138,12 @@ fn gen_text(t: &mut Tape, n: &Names) -> String {
         _ => s.push_str(&format!("  function missing{k}(): int = {other}.noSuchMember()\n\n")),
       }
     }
+    // a class used without (necessarily) being imported: `Cannot resolve class`, for which another
+    // pool module may offer an auto-import quick fix
+    if t.bool(1, 4) {
+      let c = t.choose(6);
+      s.push_str(&format!("  function forgot{c}(): int = {}.{}().{}()\n\n", n.class(c), n.make(), n.get()));
+    }
     match t.weighted(&[8, 1, 1, 1]) {
       1 => s.push_str("  function bad(): int = true\n\n"),
       2 => s.push_str(&format!("  function unbound(): int = {}\n\n", n.local(7))),
@@ -200,7 +206,21 @@ fn gen_history(t: &mut Tape, with_queries: bool, max_ops: usize) -> Value {
             texts.insert(b, x);
           }
         }
+        let old_text = texts.get(&b).cloned().filter(|_| !live.contains(&a)).unwrap_or_default();
         ops.push(json!({"op": "rename", "pairs": [[n.module(a), n.module(b)]]}));
+        // requests that still name the file that was just renamed away, where its class names were
+        if with_queries && !old_text.is_empty() && t.bool(1, 2) {
+          let lines: Vec<&str> = old_text.split('\n').collect();
+          let uppers: Vec<(usize, usize)> = lines.iter().enumerate().flat_map(|(li, l)| l.char_indices().filter(|(ci, c)| c.is_ascii_uppercase() && (*ci == 0 || !l.as_bytes()[ci - 1].is_ascii_alphanumeric())).map(move |(ci, _)| (li, ci))).collect();
+          for _ in 0..1 + t.choose(3) {
+            if uppers.is_empty() {
+              break;
+            }
+            let (line, col) = uppers[t.choose(uppers.len())];
+            let q = ["code-actions", "hover", "definition", "references", "rename", "format", "completion"][t.weighted(&[5, 2, 2, 2, 2, 2, 2])];
+            ops.push(json!({"op": "query", "kind": q, "module": n.module(a), "line": line, "col": col, "end_col": col + 1 + if q == "code-actions" { 0 } else { t.choose(6) }, "new_name": "renamed"}));
+          }
+        }
       }
       3 => {
         let a = if !live.is_empty() && t.bool(5, 6) { live[t.choose(live.len())] } else { t.choose(6) };
@@ -256,8 +276,13 @@ fn gen_history(t: &mut Tape, with_queries: bool, max_ops: usize) -> Value {
           (line, t.choose(lines.get(line).map(|l| l.len()).unwrap_or(0) + 4))
         };
         let q = ["hover", "completion", "signature", "definition", "references", "rename", "code-actions", "format", "folding"][t.choose(9)];
+        // quick fixes are offered at the location of a diagnostic: aim code-action requests at class names
+        let uppers: Vec<(usize, usize)> = lines.iter().enumerate().flat_map(|(li, l)| l.char_indices().filter(|(ci, c)| c.is_ascii_uppercase() && (*ci == 0 || !l.as_bytes()[ci - 1].is_ascii_alphanumeric())).map(move |(ci, _)| (li, ci))).collect();
+        let (line, col) = if q == "code-actions" && !uppers.is_empty() && t.bool(3, 4) { uppers[t.choose(uppers.len())] } else { (line, col) };
         let new_name = ["renamed", "aRenamedVariableWithAVeryLongName", "x", "Bad", "", "with space"][t.weighted(&[4, 4, 2, 1, 1, 1])];
-        ops.push(json!({"op": "query", "kind": q, "module": n.module(m), "line": line, "col": col, "end_col": col + t.choose(6), "new_name": new_name}));
+        // (a quick fix is offered only when the requested range lies inside the diagnostic's range)
+        let width = if q == "code-actions" && t.bool(2, 3) { 1 } else { t.choose(6) };
+        ops.push(json!({"op": "query", "kind": q, "module": n.module(m), "line": line, "col": col, "end_col": col + width, "new_name": new_name}));
       }
     }
   }
